@@ -77,6 +77,19 @@ def main(argv=None):
               (prop, e))
         return EXIT_INCONCLUSIVE
 
+    for pre in getattr(mod, 'PRECHECKS', []):
+        env = dict(os.environ)
+        env['SYMX_NATIVE'] = '1'
+        env['PYTHONPATH'] = VERIF + os.pathsep + REPO
+        r = subprocess.run([sys.executable, '-m', pre], cwd=VERIF, env=env,
+                           capture_output=True, text=True, timeout=600)
+        if a.v:
+            print('[%s] precheck %s: %s' % (prop, pre,
+                                            r.stdout.strip()[-200:]))
+        if r.returncode != 0:
+            print('INCONCLUSIVE property=%s precheck %s failed: %s' % (
+                prop, pre, (r.stdout + r.stderr)[-600:]))
+            return EXIT_INCONCLUSIVE
     runs = []
     total = {'states': 0, 'transitions': 0, 'validated': 0, 'queries': 0,
              'closing': 0, 'solver_s': 0.0, 'realisations': 0,
